@@ -177,8 +177,11 @@ CHECKS = {
              "or an error, MessageRerror or plain), one third of the steps pipelined without waiting; 1/6 of the sends reuse the tag of a request whose handler is parked. "
              "Both buffered and rendezvous (net.Pipe-like) connections; msize 400..1 MiB. Oracle: multiset of owed replies; every frame must match an owed reply exactly (tag, "
              "content, marker), handler invoked exactly once per dispatched request with the message sent (inbound Tread count clamp applied), duplicate-tag request gets the "
-             "duplicate-tag error and no invocation, nothing extra at quiescence. Non-trivial = handlers completed out of arrival order, or a duplicate-tag step.",
-        require_classes=dict(quick=["duptag", "duptag_tflush", "err_canceled", "err_deadline", "err_wrap9p", "out_of_order_completion", "pipelined", "rendezvous", "buffered"], thorough=[]),
+             "duplicate-tag error and no invocation, nothing extra at quiescence. One script in 12 runs on top of 100..300 requests sent back to back and left outstanding "
+             "(pipelining depth 127/128/129/255/256/257 and random); one script in 25 contains a pause of 320..420 ms on a connection whose read deadlines run 100 times faster, "
+             "i.e. longer than the server's 30 s idle read timeout, with or without handlers still running, after which the connection must still serve. "
+             "Non-trivial = handlers completed out of arrival order, or a duplicate-tag step.",
+        require_classes=dict(quick=["duptag", "duptag_tflush", "err_canceled", "err_deadline", "err_wrap9p", "out_of_order_completion", "pipelined", "rendezvous", "buffered", "burst_over_128", "idle_past_read_timeout"], thorough=[]),
         assumptions=["handler results fit in msize (the property's proviso)",
                      "a tag is reused only when its state is certain (handler parked, or reply already read), which keeps the oracle exact",
                      "'no reply within 10 s although the handler returned' counts as a missing reply (normal latency is microseconds)"],
@@ -187,7 +190,7 @@ CHECKS = {
         pkg="server",
         level="exploration",
         groups=[G("^TestC07_Script$", 600, 25000)],
-        rule="C06 machinery plus Tflush steps at every timing: target = a parked handler / a request whose handler has not been observed yet / an already answered tag / a never used tag; "
+        rule="C06 machinery (incl. one script in 12 on top of 100..300 outstanding requests) plus Tflush steps at every timing: target = a parked handler / a request whose handler has not been observed yet / an already answered tag / a never used tag; "
              "the target's handler is released right before or right after the Tflush is written (racing it) or only later (late completion); handlers that honour cancellation and "
              "handlers that ignore it; new requests deliberately reuse the tag of a flushed request whose handler is still running, and that handler then completes late. Oracle after the "
              "flush acknowledgement was read: handler context done; no frame carrying the flushed request's marker ever arrives; the request reusing the tag gets exactly one reply with "
